@@ -377,6 +377,17 @@ def _join_routes():
         info["join_ref"] = "../x"
         return out, info
     ROUTES["join_base2"] = Route("join_base2", fnb2, supb2, "join")
+    # the word in the base's query / fragment, the reference empty or fragment-only (those inherit the base query)
+    for rn, tmpl, ref in (("join_base_query", "http://h.com/p?{}", "#s"), ("join_base_query_empty", "http://h.com/p?k={}&{}=v#f", ""),
+                          ("join_base_query_rel", "/p/q?{}", "?"), ("join_base_fragment", "http://h.com/p?a=1#{}", "")):
+        def fnq(w, tmpl=tmpl, ref=ref):
+            return impl.URL(tmpl.replace("{}", w)).join(impl.URL(ref))
+        def supq(w, tmpl=tmpl, ref=ref):
+            out, info = _ctor_supplied(tmpl)(w)
+            info["join_ref"] = ref
+            info["join_tmpl"] = tmpl
+            return out, info
+        ROUTES[rn] = Route(rn, fnq, supq, "join")
 
 
 _join_routes()
